@@ -277,7 +277,20 @@ func runC10(c *Ctx) {
 				continue
 			}
 			n++
-			root, p := pathOf(ci.Common().Args[1])
+			amount := ci.Common().Args[1]
+			// the size may be handed in by the only caller of the recovery step
+			for depth := 0; depth < 3; depth++ {
+				prm, isP := core.Strip(amount).(*ssa.Parameter)
+				if !isP {
+					break
+				}
+				a, _ := c.callerArg(prm)
+				if a == nil {
+					break
+				}
+				amount = a
+			}
+			root, p := pathOf(amount)
 			okSrc := false
 			if p == ".Size" {
 				if a, isAlloc := root.(*ssa.Alloc); isAlloc {
@@ -576,7 +589,31 @@ func (c *Ctx) slurpExact(rule string) {
 				}
 			}
 			if !found {
-				okAll = false
+				// the window is not touched directly in Slurp (the fill lives in a helper): the last call that can change
+				// it before this return is reset(0)
+				okTail := false
+				resetFn := c.P.Method("buffer", "Reader", "reset")
+				blk := ret.Block()
+				for i := len(blk.Instrs) - 1; i >= 0; i-- {
+					ci, isCall := blk.Instrs[i].(ssa.CallInstruction)
+					if !isCall {
+						continue
+					}
+					if core.StaticCallee(ci) == resetFn {
+						if k, isK := core.ConstInt(ci.Common().Args[1]); isK && k == 0 {
+							okTail = true
+						}
+						break
+					}
+					if c.modSets().MayModify(ci, "Reader", "Msg") {
+						break
+					}
+				}
+				if okTail {
+					n++
+				} else {
+					okAll = false
+				}
 			}
 		}
 		R.Check(okAll && n > 0, rule, "Slurp:leaves-empty-window", c.atFn(sl), "after a message was skipped nothing of it remains in the message window", sprintf("len(Msg) == 0 proved at %d successful return(s) (E-LIN with the verified reset summary)", n), "Slurp can return successfully with the last skipped chunk still in the window: a reader that decodes a non-empty window before fetching (BinaryCopyReader.Read) takes skipped bytes for data")
